@@ -648,7 +648,7 @@ def mutation_controls(chk, names=None, n=None, keep_going=False):
     out = {}
     for name in (names or list(MUTATIONS)):
         path, old, new, scope = MUTATIONS[name]
-        wt = f"/tmp/wt-s7-{os.getpid()}-{abs(hash(name)) % 10**6}"
+        wt = f"/tmp/wt-s7-{os.getpid()}-{list(MUTATIONS).index(name)}"
         subprocess.run(["git", "-C", str(REPO), "worktree", "remove", "--force", wt], capture_output=True)
         p = subprocess.run(["git", "-C", str(REPO), "worktree", "add", "--detach", wt, "HEAD"], capture_output=True, text=True)
         if p.returncode != 0:
